@@ -163,11 +163,23 @@ fn number_text(v: i64, rng: &mut Rng) -> String
 	}
 }
 
-fn string_text(s: &str) -> String
+/// a string literal for `s` in one of its spellings: a character that may stand for itself does so three times out of four,
+/// else it is a `\u{..}` escape of 1-6 hex digits in either letter case (tab also as `\t`)
+fn string_text(s: &str, rng: &mut Rng) -> String
 {
 	let mut o = String::from("\"");
 	for c in s.chars()
 	{
+		let raw_ok = c == '\t' || ((c as u32) >= 0x20 && c as u32 != 0x7f && c != '"' && c != '\\');
+		if raw_ok && rng.chance(1, 4)
+		{
+			if c == '\t' && rng.chance(1, 2) { o.push_str("\\t"); continue; }
+			let digits = format!("{:x}", c as u32).len();
+			let w = digits + rng.below((7 - digits) as u64) as usize;
+			if rng.chance(1, 2) { o.push_str(&format!("\\u{{{:0w$x}}}", c as u32, w = w)); } else { o.push_str(&format!("\\u{{{:0w$X}}}", c as u32, w = w)); }
+			continue;
+		}
+		if c == '\t' { o.push(c); continue; }
 		match c { '"' => o.push_str("\\\""), '\\' => o.push_str("\\\\"), '\n' => o.push_str("\\n"), '\t' => o.push_str("\\t"),
 			'\r' => o.push_str("\\r"), '\0' => o.push_str("\\0"), c if (c as u32) < 0x20 || c as u32 == 0x7f => o.push_str(&format!("\\u{{{:x}}}", c as u32)), c => o.push(c) }
 	}
@@ -185,7 +197,7 @@ fn render(a: &Arg, ctx: u32, bits: &mut Bits, rng: &mut Rng, out: &mut Vec<Strin
 	{
 		Argument::Constant(Number::Integer(v)) => out.push(number_text(*v, rng)),
 		Argument::Identifier(s) => out.push(s.as_ref().to_string()),
-		Argument::String(s) => out.push(string_text(s.as_ref())),
+		Argument::String(s) => out.push(string_text(s.as_ref(), rng)),
 		Argument::Negate(x) => { out.push("-".into()); render(x, 7, bits, rng, out); },
 		Argument::Not(x) => { out.push("!".into()); render(x, 7, bits, rng, out); },
 		Argument::Address(x) => { out.push("[".into()); render(x, 0, bits, rng, out); out.push("]".into()); },
@@ -290,7 +302,7 @@ fn join(pieces: &[String], style: u64, rng: &mut Rng) -> Vec<u8>
 
 const IDENTS: [&str; 10] = ["a", "b", "r0", "x_1", "foo.bar", "_t$", "L@1", "PC", "q", "zz9"];
 const NAMES: [&str; 8] = ["mov", "ldr", "f", "du32", "g.h", "_", "ADD", "x$"];
-const STRINGS: [&str; 7] = ["", "s", "a,b;", "\n\"", "/*x*/", "é", "a\\b"];
+const STRINGS: [&str; 12] = ["", "s", "a,b;", "\n\"", "/*x*/", "é", "a\\b", "col1\tcol2", "\t", "\u{10FFFF}", "x\u{100000}\u{FFFF}€", "\u{7f}\u{1}\r\0"];
 
 fn pk(rng: &mut Rng, xs: &[&'static str]) -> &'static str { xs[rng.below(xs.len() as u64) as usize] }
 
